@@ -70,7 +70,7 @@ PROPS = {
         "explanation": "SymbolMap operations and the global-slot recycler's bytecode scan under contract; sequences bounded (maps/sets are loop-based models)",
     },
     "C04": {
-        "units": ["heap"],
+        "units": ["heap", "heapo"],
         "trusted_base": COMMON_TB + [
             "units/heap/prelude.rs: StandardShared=Arc / WeakShared=Weak (as crate::gc defines them for `sync`), MutContainer as RefCell with read()/write(), reduced SteelVal, channel stubs, log no-op",
             "std Arc/Weak/RefCell/Vec are executed as compiled by Kani",
